@@ -92,3 +92,7 @@ Definition agree_but_source (a b : out) : bool :=
           (mkOut (o_structs b) (o_consts b) (o_overrides b) (o_bind_groups b) (o_vstructs b) (o_compute b)
                  (o_entry_consts b) (o_vertex_tpl b) (o_ventries b) (o_fragment_tpl b) (o_fentries b)
                  (SrcInclude "") (o_pc_stages b) (o_pl_groups b) (o_pc_ranges b)).
+
+(** C07 reads the vertex struct impls and the vertex entry helpers *)
+Definition agree_C07 (a b : out) : bool :=
+  list_eqb vstruct_eqb (o_vstructs a) (o_vstructs b) && list_eqb ventry_eqb (o_ventries a) (o_ventries b).
